@@ -95,6 +95,9 @@ func CheckPlasmaInfo(g *GenesisConfig) error {
 		if fusion == nil {
 			return errors.Errorf("nil FusionInfo for %v", addr)
 		}
+		if fusion.Amount == nil || fusion.Amount.Sign() < 0 {
+			return errors.Errorf("invalid FusionInfo for %v Amount is missing or negative", addr)
+		}
 		totalAmount.Add(totalAmount, fusion.Amount)
 	}
 
@@ -109,7 +112,7 @@ func CheckSwapAccount(g *GenesisConfig) error {
 	}
 
 	for _, entry := range g.SwapConfig.Entries {
-		if entry.Qsr == nil || entry.Znn == nil {
+		if entry.Qsr == nil || entry.Znn == nil || entry.Qsr.Sign() < 0 || entry.Znn.Sign() < 0 {
 			return errors.Errorf("invalid swap balance for KeyIdHash %v", entry.KeyIdHash)
 		}
 	}
@@ -120,6 +123,9 @@ func CheckPillarBalance(g *GenesisConfig) error {
 	totalAmount := big.NewInt(0)
 
 	for _, el := range g.PillarConfig.Pillars {
+		if el.Amount == nil || el.Amount.Sign() < 0 {
+			return errors.Errorf("invalid pillar %v Amount is missing or negative", el.Name)
+		}
 		totalAmount.Add(totalAmount, el.Amount)
 	}
 
